@@ -30,6 +30,24 @@ def forRange (first limit step : Int) (dir : Direction) : List Int :=
   else
     if dir = .asc ∧ limit ≠ first then [] else downFrom ((first - limit).toNat + 1) first limit step
 
+/-- The number of iterations in closed form (`step ≥ 1`): `|limit − first| / step + 1` when the
+direction can be met, else 0. -/
+def forCount (first limit step : Int) (dir : Direction) : Nat :=
+  if limit > first then
+    if dir = .desc then 0 else ((limit - first) / step).toNat + 1
+  else
+    if dir = .asc ∧ limit ≠ first then 0 else ((first - limit) / step).toNat + 1
+
+/-- The values in closed form: `first ± i·step` for `i < forCount …` (that this is `forRange` for
+every `step ≥ 1` is `C06.forRange_closed_form`). -/
+def forValues (first limit step : Int) (dir : Direction) : List Int :=
+  (List.range (forCount first limit step dir)).map fun (i : Nat) =>
+    if limit > first then first + (i : Int) * step else first - (i : Int) * step
+
+example : forValues 1 10 4 .auto = [1, 5, 9] := by decide
+example : forValues 3 1 1 .auto = [3, 2, 1] := by decide
+example : forCount (-9223372036854775808) 9223372036854775807 1 .auto = 2 ^ 64 := by decide
+
 example : forRange 1 10 4 .auto = [1, 5, 9] := by decide
 example : forRange 3 1 1 .auto = [3, 2, 1] := by decide
 example : forRange 3 3 5 .desc = [3] := by decide
